@@ -16,6 +16,8 @@ struct Model {
     depth: usize,
     combined: bool,
     generic: bool,
+    /// serde(default) on the subject field (field / struct-variant-field positions)
+    default: bool,
 }
 
 const TRIGGERS: [&str; 9] = ["()", "u8", "u16", "u32", "U53", "OffsetDateTime", "Vec<u8>", "T", "HashMap<String, u8>"];
@@ -36,7 +38,8 @@ fn nest(t: &str, depth: usize, rng: &mut Rng) -> String {
 }
 
 fn render(m: &Model, rng: &mut Rng) -> String {
-    let g = if m.generic { "<T>" } else { "" };
+    // only the item that mentions T is generic, so that its backend code alone has to declare the parameter
+    let g = if m.generic && matches!(m.position, "field" | "generic-argument") { "<T>" } else { "" };
     let ty = nest(m.trigger, m.depth, rng);
     let mut extra_fields = String::new();
     if m.combined {
@@ -50,11 +53,12 @@ fn render(m: &Model, rng: &mut Rng) -> String {
         "generic-argument" => format!("Wrapper<{ty}>"),
         _ => "String".to_string(),
     };
-    s.push_str(&format!("#[typeshare]\npub struct Holder{g} {{\n    pub first: i32,\n    pub subject: {field_ty},\n{extra_fields}}}\n\n"));
+    let dflt = if m.default { "#[serde(default)]\n    " } else { "" };
+    s.push_str(&format!("#[typeshare]\npub struct Holder{g} {{\n    pub first: i32,\n    {}pub subject: {field_ty},\n{extra_fields}}}\n\n", if matches!(m.position, "field" | "generic-argument") { dflt } else { "" }));
     let ge = if m.generic && matches!(m.position, "struct-variant-field" | "payload") { "<T>" } else { "" };
     let sv = if m.position == "struct-variant-field" { ty.clone() } else { "bool".into() };
     let pl = if m.position == "payload" { ty.clone() } else { "String".into() };
-    s.push_str(&format!("#[typeshare]\n#[serde(tag = \"t\", content = \"c\")]\npub enum Choice{ge} {{\n    Unit,\n    Rec {{ inner: {sv} }},\n    Pay({pl}),\n}}\n\n"));
+    s.push_str(&format!("#[typeshare]\n#[serde(tag = \"t\", content = \"c\")]\npub enum Choice{ge} {{\n    Unit,\n    Rec {{ {}inner: {sv} }},\n    Pay({pl}),\n}}\n\n", if m.position == "struct-variant-field" { dflt.replace("\n    ", " ") } else { String::new() }));
     let al = if m.position == "alias" { ty } else { "Vec<String>".into() };
     let ga = if m.generic && m.position == "alias" { "<T>" } else { "" };
     s.push_str(&format!("#[typeshare]\npub type Shortcut{ga} = {al};\n"));
@@ -166,13 +170,16 @@ fn judge(case: &Case<Model>, rep: &mut Report) {
         }
         LangId::Python => {
             if let Some(py) = case.single_facts().and_then(|f| f.py.as_ref()) {
-                for n in &py.unresolved {
+                // C12 is about names typeshare brings in. `Shortcut[T] = List[T]` (Python's spelling of a generic alias)
+                // also leaves the *user's* name Shortcut unbound; that is outside this property (DESIGN 10.2, observations)
+                let user_alias_unbound = m.generic && m.position == "alias";
+                for n in py.unresolved.iter().filter(|n| !(user_alias_unbound && n.as_str() == "Shortcut")) {
                     rep.violate(sig(&format!("python-name-{}", if n.chars().next().map(|c| c.is_uppercase()).unwrap_or(false) { "Type" } else { "function" })), format!("name {n} is used but neither defined nor imported"), case.detail(json!({"name": n})));
                 }
                 rep.count("python_names_resolved_modules", 1);
                 if let Some((ok, ty, msg)) = &py.exec {
                     rep.count("python_modules_imported", 1);
-                    if !ok && ty == "NameError" && py.eager_undefined.is_empty() {
+                    if !ok && ty == "NameError" && py.eager_undefined.is_empty() && !(user_alias_unbound && msg.contains("'Shortcut'")) {
                         rep.violate(sig("python-import-NameError"), format!("import fails: {msg}"), case.detail(json!({"error": msg})));
                     }
                     if !ok && (ty == "ImportError" || ty == "ModuleNotFoundError" || ty == "AttributeError") {
@@ -204,7 +211,9 @@ pub fn run(ctx: &Ctx) -> (Spec, Report) {
             }
         }
     }
-    let n_grid = grid.len();
+    // the grid twice: plain, then with serde(default) on the subject field
+    let n_grid1 = grid.len();
+    let n_grid = 2 * n_grid1;
     let n = n_grid + ctx.tier.pick(4000, 40_000);
     let grid_ref = &grid;
     let mut rep = run_rounds(
@@ -213,16 +222,16 @@ pub fn run(ctx: &Ctx) -> (Spec, Report) {
         n,
         true,
         |rng: &mut Rng, i| {
-            let (t, p, d) = if i < n_grid { grid_ref[i] } else { (rng.below(TRIGGERS.len()), rng.below(POSITIONS.len()), rng.below(5)) };
+            let (t, p, d) = if i < n_grid { grid_ref[i % n_grid1] } else { (rng.below(TRIGGERS.len()), rng.below(POSITIONS.len()), rng.below(5)) };
             let trigger = TRIGGERS[t];
-            let m = Model { trigger, position: POSITIONS[p], depth: d, combined: i >= n_grid && rng.chance(1, 3), generic: trigger == "T" };
+            let m = Model { trigger, position: POSITIONS[p], depth: d, combined: i >= n_grid && rng.chance(1, 3), generic: trigger == "T", default: if i < n_grid { i >= n_grid1 } else { rng.chance(1, 4) } };
             let mut r2 = Rng::new(rng.next_u64());
             let src = render(&m, &mut r2);
             let langs: Vec<(LangId, LangCfg)> = ALL_LANGS
                 .iter()
                 .filter(|l| !(trigger == "OffsetDateTime" && !matches!(l, LangId::Ts | LangId::Go | LangId::Python)))
-                // generic enums / aliases are not supported by Go and Python
-                .filter(|l| !(m.generic && matches!(m.position, "struct-variant-field" | "payload" | "alias") && matches!(l, LangId::Go | LangId::Python)))
+                // Go has no notion of a generic enum / alias (it prints the parameter as if it were a type); Python declares TypeVars for them
+                .filter(|l| !(m.generic && matches!(m.position, "struct-variant-field" | "payload" | "alias") && matches!(l, LangId::Go)))
                 .map(|l| {
                     let mut c = LangCfg::basic(*l);
                     if trigger == "Vec<u8>" {
